@@ -35,6 +35,8 @@ pub enum Atom {
 pub struct Cons {
     pub prods: Vec<Vec<Atom>>,
     pub out: Option<Atom>,
+    /// expression-shape family (exprfam.rs): the polynomial is wrap(tree, out) instead of sum_of_products - out
+    pub expr: Option<(crate::exprfam::Tree, String)>,
 }
 #[derive(Clone, Debug)]
 pub struct GateD {
@@ -107,8 +109,11 @@ impl Shape {
                         .unwrap()
                         .iter()
                         .map(|c| Cons {
-                            prods: c["prods"].as_array().unwrap().iter().map(atoms).collect(),
+                            prods: c.get("prods").and_then(|p| p.as_array()).map(|p| p.iter().map(atoms).collect()).unwrap_or_default(),
                             out: c.get("out").filter(|o| !o.is_null()).map(atom),
+                            expr: c.get("expr").filter(|o| !o.is_null()).map(|t| {
+                                (crate::exprfam::Tree::from_json(t), c.get("wrap").and_then(|w| w.as_str()).unwrap_or("E-o").to_string())
+                            }),
                         })
                         .collect(),
                 })
@@ -284,6 +289,16 @@ impl<F: PrimeField> Circuit<F> for ShapeCircuit<F> {
                     .cons
                     .iter()
                     .map(|c| {
+                        if let Some((tree, mode)) = &c.expr {
+                            // expression-shape family: the tree goes through the real operator overloads / enum nodes
+                            let o = expr_of(m, c.out.as_ref().expect("expr constraint needs an out cell"), adv, fix, inst, chal);
+                            let m = std::cell::RefCell::new(&mut *m);
+                            let e = tree.build(
+                                &mut |a| expr_of(&mut **m.borrow_mut(), a, adv, fix, inst, chal),
+                                &mut || m.borrow_mut().query_selector(sel.expect("[\"q\"] needs a gate selector")),
+                            );
+                            return crate::exprfam::wrap(mode, e, o);
+                        }
                         let mut it = c.prods.iter();
                         let mut e = prod_expr(m, it.next().expect("no product"), adv, fix, inst, chal);
                         for p in it {
@@ -340,7 +355,11 @@ impl<F: PrimeField> Circuit<F> for ShapeCircuit<F> {
             let base = s.gate_base(gi) as i64;
             for con in g.cons.iter() {
                 // inputs first
-                for p in con.prods.iter() {
+                let mut tree_atoms = vec![];
+                if let Some((t, _)) = &con.expr {
+                    t.atoms(&mut tree_atoms);
+                }
+                for p in con.prods.iter().map(|p| &p[..]).chain(std::iter::once(&tree_atoms[..])) {
                     for a in p.iter() {
                         match a {
                             Atom::A(col, r) => {
@@ -357,6 +376,19 @@ impl<F: PrimeField> Circuit<F> for ShapeCircuit<F> {
                 }
             }
             for con in g.cons.iter() {
+                if let (Some((tree, _)), Some(Atom::A(ocol, orot))) = (&con.expr, &con.out) {
+                    let v = tree.eval(&|a: &Atom| -> Value<F> {
+                        match a {
+                            Atom::A(col, r) => advice[&(*col, (base + *r as i64) as usize)],
+                            Atom::F(col, r) => Value::known(fixed[&(*col, (base + *r as i64) as usize)]),
+                            Atom::I(col, r) => inst_val(*col, base + *r as i64),
+                            Atom::C(i) => chal_vals[*i],
+                            Atom::K(k) => Value::known(F::from(*k)),
+                        }
+                    });
+                    advice.insert((*ocol, (base + *orot as i64) as usize), v);
+                    continue;
+                }
                 if let Some(Atom::A(ocol, orot)) = &con.out {
                     let mut sum = Value::known(F::ZERO);
                     for p in con.prods.iter() {
